@@ -41,6 +41,9 @@ fn topic_names() -> BoxedStrategy<String> {
         "////////////////////////".into(),
         "projects/p0/subscriptions".into(),
         "projects/aa/subscriptions".into(),
+        "projects/p0/extra/topics/top0".into(),
+        "projects/p0/subscriptions/sub0/topics/top0".into(),
+        "projects/p0/topics/x/topics/top0".into(),
     ];
     prop_oneof![
         8 => (0..fixed.len()).prop_map(move |i| fixed[i].clone()),
@@ -147,6 +150,8 @@ fn raw_req() -> BoxedStrategy<Op> {
         2 => (topic_names(), i32s(), tokens(), a).prop_map(|(topic, size, token, a)| Op::Raw { req: Req::ListTopicSubs { topic, size, token }, a }),
         3 => (topic_names(), 0u8..3, a).prop_map(|(topic, n, a)| Op::RawPublish { topic, n, a }),
         3 => (sub_names(), i32s(), a).prop_map(|(sub, max, a)| Op::Raw { req: Req::Pull { sub, max, ri: true }, a }),
+        // a waiting pull on the subscription that holds a backlog, with limits around the 16-bit wrap
+        1 => prop_oneof![Just(0i32), Just(65_536), Just(131_072), Just(-65_536), Just(i32::MIN), Just(1), Just(65_537)].prop_map(|max| Op::Raw { req: Req::Pull { sub: S0.name(), max, ri: false }, a: false }),
         4 => (sub_names(), vec(ack_ids(), 0..5), a).prop_map(|(sub, ack_ids, a)| Op::Raw { req: Req::Ack { sub, ack_ids }, a }),
         4 => (sub_names(), vec(ack_ids(), 0..5), i32s(), a).prop_map(|(sub, ack_ids, secs, a)| Op::Raw { req: Req::Modify { sub, ack_ids, secs }, a }),
         1 => (prop_oneof![Just(255usize), Just(256), Just(257), Just(300), Just(1000), Just(1001)], 0usize..3, ack_ids(), i32s(), any::<bool>()).prop_map(|(len, pos, bad, secs, is_ack)| {
